@@ -837,6 +837,11 @@ func (e *CoreExtension) testSameAs(value interface{}, args ...interface{}) (bool
 	if len(args) == 0 {
 		return false, errors.New("same_as test requires an argument")
 	}
+	// Comparing interface values panics when the dynamic types are not comparable
+	if value != nil && args[0] != nil &&
+		(!reflect.TypeOf(value).Comparable() || !reflect.TypeOf(args[0]).Comparable()) {
+		return false, nil
+	}
 	return value == args[0], nil
 }
 
